@@ -263,24 +263,34 @@ def wl_zone(ctx, P, PP, tz, rng):
         exp_off = secs
     elif branch == 'numeric-paren-name':
         # '-0300 (BRST)' / '-03:00 (BRST)': the offset with the name in parentheses names the zone; tzinfos are asked by name
-        if secs == 0:
-            secs, hh, mm, sign = -10800, 3, 0, '-'
-        form = rng.choice(['%s%02d%02d', '%s%02d:%02d'])
-        text = btxt + ' ' + form % (sign, hh, mm) + ' (BRST)'
         sub = rng.choice(['plain', 'dict', 'callable'])
+        if sub != 'plain' and rng.random() < .3:
+            secs, hh, mm, sign = 0, 0, 0, rng.choice('+-')
+        elif secs == 0:
+            secs, hh, mm, sign = -10800, 3, 0, '-'
+        # (a zero offset with a name keeps the name: tzinfos are asked for it; without tzinfos it would be UTC)
+        pname = rng.choice(['BRT', 'QQQ', 'BRST', 'ABCDE'])
+        pname = pname if pname not in local_names() else 'QXZ'
+        form = rng.choice(['%s%02d%02d', '%s%02d:%02d'])
+        text = btxt + ' ' + form % (sign, hh, mm) + ' (%s)' % pname
         branch += '-' + sub + ('-colon' if ':' in form else '')
-        exp_off, exp_name = secs, 'BRST'
+        ctx.count('paren_name_len_%d' % len(pname))
+        if secs == 0:
+            ctx.count('paren_name_zero_offset')
+        exp_off, exp_name = secs, pname
         if sub == 'dict':
             obj = tz.tzoffset('FROMDICT', 1234)
-            kw['tzinfos'] = {'BRST': obj}
+            kw['tzinfos'] = {pname: obj}
             exp_off, exp_name, exp_is = 1234, 'FROMDICT', obj
         elif sub == 'callable':
             seen = []
 
             def f(name, off):
                 seen.append((name, off))
-                return tz.tzoffset(name, off)
+                return tz.tzoffset(name, off if off else 60)
             kw['tzinfos'] = f
+            if secs == 0:
+                exp_off = 60
     elif branch == 'zero':
         text = btxt + rng.choice(['+0000', ' +00:00', '-00:00', 'Z', ' Z', '+00'])
         exp_off, exp_is = 0, (tz.UTC if 'UTC' not in local_names() else None)   # 'UTC' as a *local* zone name comes first
@@ -341,8 +351,8 @@ def wl_zone(ctx, P, PP, tz, rng):
             bad.append('TZ string not turned into tzstr: %r' % (v.tzinfo,))
         if branch in ('numeric', 'dict-miss') and exp_off != 0 and not isinstance(v.tzinfo, tz.tzoffset):
             bad.append('numeric offset gave %r' % (v.tzinfo,))
-        if branch.startswith('numeric-paren-name-callable') and not ignoretz and seen != [('BRST', secs)]:
-            bad.append('callable was called with %r, expected [%r]' % (seen, ('BRST', secs)))
+        if branch.startswith('numeric-paren-name-callable') and not ignoretz and seen != [(exp_name, secs)]:
+            bad.append('callable was called with %r, expected [%r]' % (seen, (exp_name, secs)))
         if branch in ('callable', 'callable-offset') and not ignoretz:
             want = ('EST', None) if branch == 'callable' else ((None, secs) if secs else ('UTC', 0))
             if seen != [want]:
@@ -705,7 +715,7 @@ def floors(agg, tier):
               'zone_callable-offset', 'zone_dict-beats-utc', 'zone_numeric', 'zone_zero', 'zone_utc-name', 'zone_gmt+h', 'zone_name+h',
               'zone_unknown', 'zone_local-std', 'fuzzy_sentences', 'ampm_lookalike_hour>12', 'ampm_lookalike_flag-set',
               'ampm_lookalike_no-hour', 'relation_accepted', 'tz_switch_calls', 'fuzzy_odd_whitespace', 'zone_numeric-paren-name-plain',
-              'zone_numeric-paren-name-plain-colon', 'default_century_february', 'fuzzy_variant_accepted', 'zone_numeric-paren-name-dict-colon', 'zone_numeric-paren-name-callable-colon'):
+              'zone_numeric-paren-name-plain-colon', 'default_century_february', 'fuzzy_variant_accepted', 'paren_name_len_3', 'paren_name_len_5', 'paren_name_zero_offset', 'zone_numeric-paren-name-dict-colon', 'zone_numeric-paren-name-callable-colon'):
         if c.get(k, 0) < 40:
             out.append('%s only %d' % (k, c.get(k, 0)))
     for z in ('UTC', 'EST', 'GMT', 'IST'):
